@@ -10,7 +10,7 @@ import os
 
 from vp import core, vlog
 
-FORMS = ["absolute", "relative", "trailing_slash", "nested_missing", "symlinked_parent"]
+FORMS = ["absolute", "relative", "trailing_slash", "nested_missing", "symlinked_parent", "symlinked_parent_other_depth"]
 CACHE = [None, False, True, 0, -1, 3]
 
 
@@ -45,6 +45,15 @@ def dir_for(form, base, name):
     if form == "symlinked_parent":
         real = os.path.join(base, name + "_realparent")
         link = os.path.join(base, name + "_linkparent")
+        os.makedirs(real, exist_ok=True)
+        if not os.path.lexists(link):
+            os.symlink(real, link)
+        return os.path.join(link, name), os.path.join(real, name)
+    if form == "symlinked_parent_other_depth":
+        # the link and its target are at different depths: a relative link target computed from the
+        # textual path would point somewhere else
+        real = os.path.join(base, name + "_volumes", "disk1", "projects")
+        link = os.path.join(base, name + "_work")
         os.makedirs(real, exist_ok=True)
         if not os.path.lexists(link):
             os.symlink(real, link)
@@ -243,14 +252,14 @@ def views_job(arg):
 def run(tier, seed):
     rep = core.Report("C16")
     rep.rule = (
-        "internal_dir x data_dir forms %r (all 25 combinations) x cache_objects %r; per configuration: process A keeps two nodes, loads, re-keeps, chdirs, loads and re-keeps again; "
+        "internal_dir x data_dir forms %r (all 36 combinations) x cache_objects %r; per configuration: process A keeps two nodes, loads, re-keeps, chdirs, loads and re-keeps again; "
         "process B (other cwd, absolute real paths) and process C (same cwd and spelling) load and re-keep with an empty execution log; two-view scripts (one internal dir, two data dirs) in one process and "
         "with one process per view switch. distinct_nontrivial = distinct configurations whose processes were all observed." % (FORMS, CACHE)
     )
     jobs = []
     for i, iform in enumerate(FORMS):
         for j, dform in enumerate(FORMS):
-            caches = CACHE if tier != "quick" else [CACHE[(i * 5 + j + seed) % len(CACHE)], CACHE[(i * 5 + j + seed + 3) % len(CACHE)]]
+            caches = CACHE if tier != "quick" else [CACHE[(i * 6 + j + seed) % len(CACHE)], CACHE[(i * 6 + j + seed + 3) % len(CACHE)]]
             for c in caches:
                 jobs.append(("case", (iform, dform, c)))
     for iform in FORMS:
